@@ -26,7 +26,7 @@ HARNESS = {"internal/query/zz_verif_c03_test.go": os.path.join(ROOT, "harness/c0
 EXTRACT = "ExtractC03.v"
 MODEL_DEPS = ["theories/Query.v"]
 BOUND = 256        # promptness / termination is judged for inputs whose intermediate normal forms stay below this many conjuncts
-MAX_RESTARTS = 25   # after that many killed workers the tree is broken anyway; the rest is not run
+MAX_RESTARTS = 12   # after that many killed workers the tree is broken anyway; the rest is not run
 WATCHDOG_S = 2.0   # BEGIN without END for this long (wall) AND ...
 WATCHDOG_CPU_S = 1.5   # ... this much CPU time burnt by the worker since BEGIN = hang (machine load alone never is)
 WATCHDOG_WALL_S = 20.0   # BEGIN without END for this long whatever the CPU time = hang (blocked)
@@ -217,6 +217,63 @@ def g_emptylist(rng):
     return t.encode()
 
 
+# products of value lists: n x m (x k) conjuncts, each pair combined by ConditionsSet.And; below the judged bound
+def _vals(key, n, rng=None, start=1):
+    if key in ("cport", "sport", "port", "id", "cbytes", "sbytes", "bytes"):
+        xs = list(range(start, start + n)) if rng is None else rng.sample(range(0, 60000), n)
+        return ",".join(str(x) for x in xs)
+    if key == "tag":
+        return ",".join("t%d" % (start + i) for i in range(n))
+    if key == "chost":
+        return ",".join("10.%d.%d.%d" % ((start + i) // 250, (start + i) % 250, 1 + i % 200) for i in range(n))
+    if key == "ftime":
+        return ",".join("-%dm:" % (start + i) for i in range(n))
+    return ",".join(["tcp", "udp", "sctp", "other"][:n])
+
+
+PRODUCT_FIXED = ["cport:" + _vals("cport", 80) + " sbytes:1,2,3",
+                 "cport:" + _vals("cport", 60) + " sbytes:1,2,3,4",
+                 "sport:" + _vals("sport", 100) + " tag:a,b",
+                 "id:" + _vals("id", 50) + " cport:80,443,8080,22,25",
+                 "tag:" + _vals("tag", 64) + " cbytes:1,2,3,4",
+                 "chost:" + _vals("chost", 40) + " sport:1,2,3,4,5,6",
+                 "cport:" + _vals("cport", 12) + " sbytes:" + _vals("sbytes", 7) + " tag:a,b,c",
+                 "cport:" + _vals("cport", 10) + " sport:" + _vals("sport", 5) + " cbytes:1,2,3,4,5",
+                 "cport:" + _vals("cport", 40) + " (sbytes:1,2,3 or tag:a,b,c)",
+                 "(cport:" + _vals("cport", 85) + ") (sbytes:1 or sbytes:2 or sbytes:3)",
+                 "cport:" + _vals("cport", 30) + " protocol:tcp,udp ftime:-5m:,-1h:,-2h:,-3h:"]
+
+
+def g_product(rng):
+    """AND of two or three value lists on different keys whose product stays below the judged bound"""
+    keys = rng.sample(["cport", "sport", "id", "cbytes", "sbytes", "tag", "chost", "ftime", "protocol"], 3)
+    if rng.random() < 0.65:
+        m = rng.choice([2, 3, 3, 4, 5])
+        n = rng.randrange(40, 101)
+        while n * m > BOUND - 6:
+            n -= 1
+        dims = [(keys[0] if keys[0] != "protocol" else "cport", n), (keys[1], m)]
+    else:
+        a, b, c = rng.randrange(5, 13), rng.randrange(3, 8), rng.randrange(2, 5)
+        while a * b * c > BOUND - 6:
+            a -= 1
+        dims = [(keys[0] if keys[0] != "protocol" else "sport", a), (keys[1], b), (keys[2], c)]
+    parts = []
+    for key, n in dims:
+        if key == "protocol":
+            n = min(n, 4)
+        if key in ("cport", "sport", "id", "cbytes", "sbytes") and rng.random() < 0.7:
+            parts.append(key + ":" + _vals(key, n, rng))
+        else:
+            parts.append(key + ":" + _vals(key, n, None, rng.randrange(1, 50)))
+    rng.shuffle(parts)
+    sep = rng.choice([" ", " ", " and ", " AND "])
+    t = sep.join(parts)
+    if rng.random() < 0.15:
+        t = "(" + t + ") sort:id"
+    return t.encode()
+
+
 def g_deep(rng):
     depth = rng.choice([5, 6, 7, 8])
     def rec(d):
@@ -295,8 +352,8 @@ def g_wellformed(rng):
     return c03.render(tr, rng).encode()
 
 
-REGIMES = [("wellformed", 0.21), ("arith", 0.13), ("longlist", 0.03), ("wide", 0.03), ("emptylist", 0.05), ("deep", 0.06), ("negdisj", 0.08),
-           ("tokens", 0.14), ("mutate", 0.18), ("badvalues", 0.09)]
+REGIMES = [("wellformed", 0.21), ("arith", 0.13), ("longlist", 0.03), ("wide", 0.03), ("emptylist", 0.05), ("product", 0.012), ("deep", 0.06), ("negdisj", 0.08),
+           ("tokens", 0.14), ("mutate", 0.17), ("badvalues", 0.088)]
 
 
 def gen_inputs(rng, n, tier):
@@ -310,6 +367,9 @@ def gen_inputs(rng, n, tier):
     for v in EMPTY_FIXED:
         inputs.append(v.encode())
         regs.append("emptylist")
+    for v in PRODUCT_FIXED:
+        inputs.append(v.encode())
+        regs.append("product")
     while len(inputs) < n:
         x, acc = rng.random(), 0.0
         reg = REGIMES[-1][0]
@@ -328,6 +388,8 @@ def gen_inputs(rng, n, tier):
             b = g_wide(rng)
         elif reg == "emptylist":
             b = g_emptylist(rng)
+        elif reg == "product":
+            b = g_product(rng)
         elif reg == "deep":
             b = g_deep(rng)
         elif reg == "negdisj":
@@ -410,7 +472,7 @@ def run_worker(inputs, tag, seed, nvals, with_model):
     while skip < len(inputs) and restarts < MAX_RESTARTS:
         env = go_env()
         env.update({"VERIF_CASES": cf, "VERIF_OUT": out, "VERIF_SKIP": str(skip), "VERIF_NVALS": str(nvals),
-                    "VERIF_SEED": str(seed), "VERIF_TWICE_MAX_S": "1.0", "VERIF_NOVALS": "1"})
+                    "VERIF_SEED": str(seed), "VERIF_TWICE_MAX_S": "0.25", "VERIF_NOVALS": "1"})
         if with_model:
             env["VERIF_MODEL_IN"] = min_
         cmd = ["go", "test", "-count=1", "-vet=off", "-tags", "verif", "-overlay", ov, "-run", "^TestVerifC14Worker$",
@@ -642,7 +704,7 @@ def main(tier, seed, replay=None):
             toks = [t for t in re.split(rb"(@[^@]*@|[+\-:,() ])", b) if t]
             ftok = lambda ts: fails(b"".join(ts))
             if ftok(toks):
-                b = b"".join(ddmin(toks, ftok, max_tests=40))
+                b = b"".join(ddmin(toks, ftok, max_tests=12))
         obj = {"property": PROP, "kind": kind, "why": text, "input_hex": b.hex(), "input_text": b.decode("utf8", "replace"),
                "original_input_hex": inputs[i].hex(), "regime": regs[i], "verdict": recs.get(i), "seed": seed,
                "replay_cmd": "bin/check C14 --replay <this file>"}
@@ -672,7 +734,7 @@ def main(tier, seed, replay=None):
         ],
         "evaluations": len(inputs),
         "distinct_nontrivial": len(distinct),
-        "rule": "seeded inputs: well-formed queries (all filter kinds, depth<=4), arithmetic with repeated variables (factors != +-1), value lists up to 2000 entries, number lists mixing single values with narrow and very wide ranges (numerals near 2^16, 2^32, 2^63; %d fixed ones), directive and filter terms whose value lists have empty / blank / duplicated / negated / quoted-empty elements (%d fixed ones), nesting depth 5-8, negated disjunctions, random token sequences of the lexer vocabulary, byte-level mutations (insert/delete/replace/duplicate/bit flip, non-UTF-8 included), %d hand-written malformed values and their mutations; each parsed in a subprocess under a %.1fs watchdog, accepted ones parsed twice and compared on 12 valuations; non-trivial = accepted input with >= 2 conjuncts, distinct by bytes" % (len(WIDE_FIXED), len(EMPTY_FIXED), len(BADVALUES), WATCHDOG_S),
+        "rule": "seeded inputs: well-formed queries (all filter kinds, depth<=4), arithmetic with repeated variables (factors != +-1), value lists up to 2000 entries, number lists mixing single values with narrow and very wide ranges (numerals near 2^16, 2^32, 2^63; %d fixed ones), directive and filter terms whose value lists have empty / blank / duplicated / negated / quoted-empty elements (%d fixed ones), products of two or three value lists on different keys with 150-256 conjuncts (%d fixed ones), nesting depth 5-8, negated disjunctions, random token sequences of the lexer vocabulary, byte-level mutations (insert/delete/replace/duplicate/bit flip, non-UTF-8 included), %d hand-written malformed values and their mutations; each parsed in a subprocess under a %.1fs watchdog, accepted ones parsed twice and compared on 12 valuations; non-trivial = accepted input with >= 2 conjuncts, distinct by bytes" % (len(WIDE_FIXED), len(EMPTY_FIXED), len(PRODUCT_FIXED), len(BADVALUES), WATCHDOG_S),
         "inputs": len(inputs), "verdicts": counts, "per_regime": per_regime, "worker_restarts": rinfo,
         "parsed_twice_and_compared": twice,
         "judged_bound_conjuncts": BOUND,
